@@ -226,12 +226,30 @@ def r_agg(E):
 
 
 # ---------------------------------------------------------------------------------------------- JSON
-def _writer_paths(fn):
-    """paths through a to_json writer: list of dict(keys, none_keys, conds)"""
+def _writer_paths(fn, find_method=None, _depth=2):
+    """paths through a to_json writer: list of dict(keys, none_keys, conds); `d.update({...})` and
+    `d.update(self.<helper>(...))` add the literal's keys / the keys of each path through the helper"""
     paths = [dict(keys=set(), none=set(), conds=[])]
+
+    def merged(paths, extra):
+        return [dict(keys=p["keys"] | q["keys"], none=p["none"] | q["none"], conds=p["conds"] + q["conds"])
+                for p in paths for q in extra]
 
     def run(stmts, paths):
         for s in stmts:
+            upd = s.value if isinstance(s, ast.Expr) and isinstance(s.value, ast.Call) and isinstance(
+                s.value.func, ast.Attribute) and s.value.func.attr == "update" and len(s.value.args) == 1 else None
+            if upd is not None:
+                x = upd.args[0]
+                if isinstance(x, ast.Dict):
+                    for p in paths:
+                        p["keys"] |= {k.value for k in x.keys if isinstance(k, ast.Constant)}
+                elif isinstance(x, ast.Call) and isinstance(x.func, ast.Attribute) and isinstance(x.func.value, ast.Name) \
+                        and x.func.value.id == "self" and find_method is not None and _depth > 0:
+                    h = find_method(x.func.attr)
+                    if h is not None and h.name != fn.name:
+                        paths = merged(paths, _writer_paths(h, find_method, _depth - 1))
+                continue
             if isinstance(s, ast.Assign) and isinstance(s.value, ast.Dict) and isinstance(s.targets[0], ast.Name):
                 for p in paths:
                     for k, v in zip(s.value.keys, s.value.values):
@@ -328,7 +346,7 @@ def r_json_keys(E):
     for cls, suffix in writers:
         wrel, w = pm.find_function(suffix, f"{cls}.to_json")
         w = inline_helpers(w, lambda name, _c=cls: (pm.find_method(_c, name)[1] if name != "to_json" else None))
-        for p in _writer_paths(w):
+        for p in _writer_paths(w, lambda name, _c=cls: (pm.find_method(_c, name)[1] if name != "to_json" else None)):
             res.instances += 1
             selected, problem = _select_reader_path(rpaths, p, reader)
             where = f"{cls}.to_json [{' & '.join(p['conds']) or 'always'}]"
@@ -361,7 +379,7 @@ def r_json_keys(E):
                 res.samples.append({"writer_path": where, "emits": sorted(p["keys"]),
                                     "reader_branch": branch,
                                     "verdict": "branch reads only emitted keys"})
-    res.floor = 20
+    res.floor = 8        # four writers, at least the with / without calculated-attributes paths of each
     return res
 
 
